@@ -356,7 +356,9 @@ func moveOutArrayDir(w *bytes.Buffer, value json.RawMessage,
 	pipestancePath, outPath string) error {
 	var valueArr []json.RawMessage
 	if err := json.Unmarshal(value, &valueArr); err != nil {
-		if err := fmtJson(w, value); err != nil {
+		// Keep the value as it is.  (fmtJson is for the printed summary:
+		// it strips the quotes of a string, which is not valid json.)
+		if _, err := w.Write(value); err != nil {
 			return err
 		}
 		return fmt.Errorf("value was not a %s: %v",
